@@ -1,6 +1,7 @@
 import ChfVerif.Lemmas.Convert
 import ChfVerif.Lemmas.ChargingSids
 import ChfVerif.Lemmas.ChargingRecords
+import ChfVerif.Model.RecordBer
 /-
   C02 — reported usage is recorded exactly once, in the right session's CDR; the opening timestamp
   is the TS 32.298 BCD form of the creation instant in every time zone.
@@ -199,5 +200,43 @@ theorem C02_exactly_once (guard : SplitGuard) (supi : Bytes) (ops : List Op)
 theorem C02_references_valid (guard : SplitGuard) (ops : List Op) (accts : Abmf.Store) (tariffs : List Rating.Tariff) :
     AllIdxOK (run guard { accts := accts, tariffs := tariffs } ops) :=
   (usage_run guard [] ops { accts := accts, tariffs := tariffs } (allIdx_init accts tariffs)).2
+
+end Chf.Props.C02
+
+namespace Chf.Props.C02
+open Chf Chf.RecordBer
+
+/-- a decimal digit character -/
+def isDigit (c : Nat) : Prop := 48 ≤ c ∧ c ≤ 57
+
+/-- C02 (consumer identification, PLMN identifier): for an MCC of three digits and an MNC of two digits the record
+    holds the TS 23.003 / TS 32.298 PLMN-Id octets: MCC digit 2 | MCC digit 1, filler F | MCC digit 3, MNC digit 2 | MNC digit 1 -/
+theorem C02_plmn2 (a b c d e : Nat) (ha : isDigit a) (hb : isDigit b) (hc : isDigit c) (hd : isDigit d) (he : isDigit e) :
+    plmnIdToCdr [a, b, c] [d, e] = [(b - 48) * 16 + (a - 48), 15 * 16 + (c - 48), (e - 48) * 16 + (d - 48)] := by
+  unfold isDigit at *
+  simp only [plmnIdToCdr, hexPair, hexNibble]
+  simp [ha, hb, hc, hd, he]
+
+/-- … and for an MNC of three digits: MCC digit 2 | MCC digit 1, MNC digit 1 | MCC digit 3, MNC digit 3 | MNC digit 2 -/
+theorem C02_plmn3 (a b c d e f : Nat) (ha : isDigit a) (hb : isDigit b) (hc : isDigit c) (hd : isDigit d) (he : isDigit e)
+    (hf : isDigit f) :
+    plmnIdToCdr [a, b, c] [d, e, f] = [(b - 48) * 16 + (a - 48), (d - 48) * 16 + (c - 48), (f - 48) * 16 + (e - 48)] := by
+  unfold isDigit at *
+  simp only [plmnIdToCdr, hexPair, hexNibble]
+  simp [ha, hb, hc, hd, he, hf]
+
+/-- every node functionality OpenCDR knows is recorded with its TS 32.298 value, any other name as 0 -/
+theorem C02_functionality :
+    functionalityCode (asciiBytes "SMF") = 1 ∧ functionalityCode (asciiBytes "AMF") = 2 ∧ functionalityCode (asciiBytes "SMSF") = 3 ∧
+    functionalityCode (asciiBytes "SGW") = 4 ∧ functionalityCode (asciiBytes "I_SMF") = 5 ∧ functionalityCode (asciiBytes "ePDG") = 6 ∧
+    functionalityCode (asciiBytes "CEF") = 7 ∧ functionalityCode (asciiBytes "NEF") = 8 ∧ functionalityCode (asciiBytes "PGW_C_SMF") = 9 ∧
+    functionalityCode (asciiBytes "MnS_Producer") = 10 := by decide
+
+/-- the consumer identification reaches the record unchanged: what OpenCDR puts into the record environment is the
+    request's own strings (absent exactly when empty) -/
+theorem C02_consumer_identification (nfId ot : Bytes) (c : Consumer) :
+    (openEnv nfId ot c).v4 = nonEmpty c.v4 ∧ (openEnv nfId ot c).v6 = nonEmpty c.v6 ∧ (openEnv nfId ot c).fqdn = nonEmpty c.fqdn ∧
+    (openEnv nfId ot c).svcSpec = nonEmpty c.svcSpec ∧ (openEnv nfId ot c).functionality = functionalityCode c.functionality :=
+  ⟨rfl, rfl, rfl, rfl, rfl⟩
 
 end Chf.Props.C02
